@@ -74,7 +74,12 @@ def gen_scenario(rng, profile="mixed"):
         # deliveries nested on the mutator's own thread start at a uniformly chosen step of it
         k = (1 if rng.random() < 0.6 else 0) if profile != "chain" else rng.randint(1, 3)
         for _ in range(k):
-            lines.append("t%d nested t%d deliver %d" % (tid, h, rng.choice(sigs))); tid += 1
+            lines.append("t%d nested t%d deliver %d" % (tid, h, rng.choice(sigs)))
+            if rng.random() < 0.8:
+                # not before global step n: lands anywhere inside the host's operations (e.g. between the
+                # installation of the dispatcher and the publication of the slot of a first registration)
+                lines.append("delay t%d %d" % (tid, rng.randint(1, 14 * nthreads)))
+            tid += 1
     if not mutators:
         lines.append("t%d reg %d %d" % (tid, sigs[0], tag)); tid += 1
     lines.append("seed %d" % rng.randint(1, 2**31))
@@ -288,4 +293,8 @@ def monitors(scenario, trace):
                     bound = 8 + len(d["runs"]) + len(got)
                     if d["steps"] > bound:
                         probs["C03"].append("delivery of %d on t%d took %d own steps (bound %d)" % (sg, tid, d["steps"], bound))
+    for tid, d in deliv.items():
+        bound = 8 + len(d["runs"]) + len(d["prevs"])
+        if d["steps"] > bound:
+            probs["C03"].append("delivery of %d on t%d has taken %d own steps without returning (bound %d): it waits for another thread" % (d["sig"], tid, d["steps"], bound))
     return probs
